@@ -243,9 +243,9 @@ def r5(ctx, R):
         seen.add(key)
         ok = key in allowed_iter and (x.op == 'Add=' and x.rhs() == '1' or x.op == '=' and x.rhs() == '0')
         R.check(ok, f'{key[1]} :: {x.target} {x.op} {x.rhs()}', x.qual, 'only restart_block (= 0) and it_check (+= 1) of a controller write the iteration counter', f'{x.target} {x.op} {x.rhs()}')
-    missing = allowed_iter - seen
-    if missing:
-        raise AnalysisError(f'C03.R5: expected writers of status.iter not found: {sorted(missing)}')
+    for rel, name, op in sorted(allowed_iter - seen):
+        repo.func(rel, name)  # a vanished function is an analysis error, a vanished write is a violation
+        R.bad(f'{name} :: writes the iteration counter ({"= 0" if op == "=" else "+= 1"})', f'{rel}:{name}', 'every controller resets status.iter to 0 in restart_block and increments it in it_check (the budget test and the logged niter count the iterations of THIS block)', 'no such write')
     # the increment: guarded by `not done`, immediately followed by the pre_iteration emission
     for rel, cn in ((NONMPI, 'controller_nonMPI'), (MPI, 'controller_MPI'), (PARADIAG, 'controller_ParaDiag_nonMPI')):
         fn = repo.func(rel, f'{cn}.it_check')
@@ -456,3 +456,9 @@ def r9(ctx, R):
         if not vals:
             raise AnalysisError(f'{w}: no initialisation of status.sweep found')
         R.check(vals == ['0'], f'{cn}.restart_block :: the sweep counter starts at 0', w, '<level>.status.sweep = 0', vals)
+
+
+@rule('C03', 'C03.R10', 'the residual is the defect of the STORED values only if the stored f[m] is F(u[m]) at the time of node m: every right-hand-side evaluation of a collocation sweeper pairs node value m with the time of node m (shared with C02.R10)', floor=10)
+def r10(ctx, R):
+    from . import c02
+    c02.r10(ctx, R)
